@@ -9,4 +9,11 @@ CHECKS = {
     ),
 }
 
+CHECKS["C10"] = dict(
+    technique="TLA+ registry specification (Registry.tla) model-checked over all interleavings; TLC-enumerated sequential histories replayed through the public API; concurrent executions recorded by hooks under Store.mux and validated by TLC (RegistryTrace.tla); gate hook for a targeted schedule",
+    text="TLC explores every interleaving of 3 threads x 2 operations (and 2 x 3) of instantiate/close/lookup/runtime-close/compile at the grain of the code's critical sections and checks NameUnique, OwnerFindable, LookupOnlyOpen, AfterRuntimeClose, AtMostOnce/ExactlyOnce; the same specification generates all sequential histories of 4-5 operations which are replayed against the real runtime with results and the whole registry state compared after each step; randomized concurrent runs of the real runtime are logged by hooks at the linearization points and TLC decides whether each log is a behaviour of the specification, evaluating every invariant at every step; the schedule 'Runtime.Close between registration and the rest of InstantiateModule' is forced deterministically.",
+    design_ref="§4 C10",
+    note="Assumes hooks H1 sit inside the critical sections they report (checked by dropping a hook: trace rejected); lock-free steps are inferred by TLC, not logged; bounded thread/operation counts in the exhaustive part; concurrent runs are sampled schedules.",
+)
+
 NOT_YET = "check not built yet in this round (work in progress; see DESIGN.md §4)"
